@@ -63,7 +63,7 @@ class Sandbox:
     def run(self, args, env=None, stdin=None, timeout=60, cwd=None, bin=None):
         e = dict(core.ENV)
         e.pop("RENAMIFY_YES", None)
-        e["NO_COLOR"] = "1"
+        e.pop("NO_COLOR", None)
         e["HOME"] = str(self.dir / "home")
         (self.dir / "home").mkdir(exist_ok=True)
         e["XDG_CONFIG_HOME"] = str(self.dir / "home" / ".config")
